@@ -5,8 +5,7 @@
      Kernel/Surface/CollectionDict.py   number_items (ids of one collection)
      Kernel/Volume/CellConversion.py    pot_expand_surfs (leaf branches)
    written over an abstract scalar; faithful to what the code does (including
-   the always-negative slant side of WED, the b.0 -> last facet indexing and
-   the Python exceptions, as Err).  Proofs are in C03/Proofs*.v. *)
+   the b.0 -> last facet indexing and the Python exceptions, as Err).  Proofs are in C03/Proofs*.v. *)
 From Coq Require Import List ZArith NArith Bool.
 From T4V Require Import Base.Scalar C03.Vec.
 Import ListNotations.
@@ -187,7 +186,7 @@ Section Model.
     let pt_a := vsum2 S base a in
     let pt_b := vsum2 S base b in
     let c := vect S (vdiff S a b) height in
-    let sign_c : Z := if sltb S 0 (mixed S a b c) then 1%Z else (-1)%Z in
+    let sign_c : Z := if sltb S 0 (scal S a c) then 1%Z else (-1)%Z in
     Ok ([ (TP, plane_np S c pt_a, sign_c);
           (TP, plane_np S a pt_b, (-1)%Z);
           (TP, plane_np S b pt_a, (-1)%Z) ] ++ end_planes base height).
